@@ -1,5 +1,6 @@
 (* Vrptw.v -- executable model of routing_problem/vrptw.py (class VRPTW) and of the
-   add_arc / set_depot overrides of SequenceBasedRoutingProblem.  Definitions only. *)
+   add_arc / set_depot overrides of SequenceBasedRoutingProblem (set_depot as of fix a305445: in strict
+   mode the stored arcs are re-added when the depot moves).  Definitions only. *)
 From VQ Require Import Base.
 
 Record node := mkNode { nname : nat; ndemand : Z; nlo : Z; nhi : ext }.
@@ -64,13 +65,50 @@ Definition set_depot (g : graph) (nm : nat) : result graph :=
       Ok (mkGraph (move_front d O (names g)) (move_front d dummy_node (nodes g)) (rekey d (arcs g)))
   end.
 
-(* SequenceBasedRoutingProblem.set_depot: base behaviour, then the depot self-arc *)
-Definition seq_set_depot (g : graph) (nm : nat) : result graph :=
-  match set_depot g nm with
-  | Err e => Err e
-  | Ok g' =>
-      let n0 := nth 0 (nodes g') dummy_node in
-      Ok (mkGraph (names g') (nodes g') (dict_set (O, O) (mkArc (nname n0) (nname n0) 0 0) (arcs g')))
+(* `for arc in old_arcs.values(): self.add_arc(arc.origin.name, arc.destination.name, arc.travel_time,
+   arc.cost)`: the stored arcs are re-added one by one, in dict order, by the NAMES of their endpoints,
+   through the class's own add_arc; an unknown endpoint name raises ValueError *)
+Definition readd_arcs (strict : bool) (g : graph) (old : dict arc) : result graph :=
+  fold_left
+    (fun r kv =>
+       match r with
+       | Err e => Err e
+       | Ok g' =>
+           let a := snd kv in
+           match add_arc_gen strict g' (aorig a) (adest a) (att a) (acost a) with
+           | Ok (g'', _) => Ok g''
+           | Err e => Err e
+           end
+       end)
+    old (Ok g).
+
+(* SequenceBasedRoutingProblem.set_depot:
+     moved = self.node_names.index(depot_name) != 0          (ValueError for an unknown name)
+     super().set_depot(depot_name)
+     if self.strict and moved:  old_arcs = self.arcs; self.vrptw.arcs = dict(); re-add every stored arc
+     self.arcs[(0,0)] = Arc(self.nodes[0], self.nodes[0], 0, 0)
+   (A ValueError out of the loop would leave the depot moved and the dict half rebuilt, while `step` below
+   keeps the old graph for every error: that case does not arise on a graph satisfying the C15 invariant,
+   where every stored arc names two nodes -- Vrptw_facts.seq_set_depot_error_iff; the generated model
+   keeps the state a raise leaves behind and is proved equal under that invariant, C15_gen_seq_set_depot.) *)
+Definition seq_set_depot (strict : bool) (g : graph) (nm : nat) : result graph :=
+  match index_of nm (names g) with
+  | None => Err ValueError
+  | Some d0 =>
+      let moved := negb (Nat.eqb d0 0) in
+      match set_depot g nm with
+      | Err e => Err e
+      | Ok g1 =>
+          match (if strict && moved
+                 then readd_arcs strict (mkGraph (names g1) (nodes g1) []) (arcs g1)
+                 else Ok g1) with
+          | Err e => Err e
+          | Ok g' =>
+              let n0 := nth 0 (nodes g') dummy_node in
+              Ok (mkGraph (names g') (nodes g')
+                          (dict_set (O, O) (mkArc (nname n0) (nname n0) 0 0) (arcs g')))
+          end
+      end
   end.
 
 (* ---------- histories ---------- *)
@@ -96,7 +134,7 @@ Definition step (c : gclass) (g : graph) (o : gop) : graph * result (option bool
       | Err e => (g, Err e)
       end
   | OpSetDepot nm =>
-      match (match c with Base => set_depot g nm | Seq _ => seq_set_depot g nm end) with
+      match (match c with Base => set_depot g nm | Seq s => seq_set_depot s g nm end) with
       | Ok g' => (g', Ok None)
       | Err e => (g, Err e)
       end
